@@ -553,7 +553,10 @@ impl Ctx {
             for m in &self.machinery_errors {
                 eprintln!("MACHINERY-ERROR: {m}");
             }
-            return 2;
+            // a confirmed violation outranks an incomplete run; without one the run is not a verdict
+            if real.is_empty() {
+                return 2;
+            }
         }
         if real.is_empty() {
             println!("OK property={} held on everything explored", self.prop);
